@@ -42,15 +42,19 @@ def create_single_letter_matches(plain, cmdline):
         if s[-1].isalpha():
             s = s + r'\b'
         return r'(' + s + r')'
-    accept = r'|'.join(f(s) for s in accept if s)
+    accept = list(re.compile(f(s)) for s in accept if s)
 
     #   a list of all occurences of accepted patterns
+    #   - each pattern is tried on its own at each position: an occurence
+    #     must not hide an overlapping one of the same or of another pattern,
+    #     e.g., for 'z|z. B.'
     #
-    if accept:
-        hits = list((m.start(0), m.end(0))
-                        for m in re.finditer(accept, plain))
-    else:
-        hits = []
+    hits = []
+    for expr in accept:
+        for pos in range(len(plain)):
+            m = expr.match(plain, pos)
+            if m:
+                hits.append((m.start(0), m.end(0)))
 
     def msg(m):
         return create_message(m, rule='PRIVATE::SINGLE_LETTER',
